@@ -194,12 +194,20 @@ theorem tildeAfterColon_lits (s : List Char) (h : hasInfix [':', '~'] s = false)
         · simp [tildeAt, h2]
       · simp [h1]
 
+theorem hasLitClose_lits (s : List Char) : hasLitClose (s.map WUnit.lit) = s.contains ']' := by
+  induction s with
+  | nil => rfl
+  | cons c cs ih =>
+    simp only [hasLitClose, List.map_cons, List.any_cons] at ih ⊢
+    rw [ih]
+    by_cases h : c = ']' <;> simp [h, eq_comm]
+
 theorem bracket_none (s : List Char) (h : ']' ∉ s) : bracketTriggered (s.map WUnit.lit) = false := by
   induction s with
   | nil => rfl
   | cons c cs ih =>
     have h2 : ']' ∉ cs := fun hh => h (by simp [hh])
-    simp only [List.map_cons, bracketTriggered, removeQuotes_lits, Bool.or_eq_false_iff]
+    simp only [List.map_cons, bracketTriggered, hasLitClose_lits, Bool.or_eq_false_iff]
     exact ⟨by simp [h2], ih h2⟩
 
 theorem bracket_lits (s : List Char) (h : openThenClose '[' ']' s = false) :
@@ -208,7 +216,7 @@ theorem bracket_lits (s : List Char) (h : openThenClose '[' ']' s = false) :
   | nil => rfl
   | cons c cs ih =>
     simp only [openThenClose] at h
-    simp only [List.map_cons, bracketTriggered, removeQuotes_lits, Bool.or_eq_false_iff]
+    simp only [List.map_cons, bracketTriggered, hasLitClose_lits, Bool.or_eq_false_iff]
     by_cases hc : c = '['
     · simp only [hc, if_true] at h
       have h2 : ']' ∉ cs := by simpa [List.contains_iff_mem] using h
